@@ -1,11 +1,15 @@
 //! Correspondence harness for cluster Gql (C36, C37, C38): drives the real `fuel-core`
 //! GraphQL helpers on generated inputs and prints canonical observations.
+mod c36;
+mod c37;
 mod c38;
 
 use vcommon::{Rng, T};
 
 fn gen(prop: &str, rng: &mut Rng, n: u64, tier: &str) -> Vec<T> {
     match prop {
+        "C36" => c36::gen(rng, n, tier),
+        "C37" => c37::gen(rng, n, tier),
         "C38" => c38::gen(rng, n, tier),
         p => panic!("unknown property {p}"),
     }
@@ -13,6 +17,8 @@ fn gen(prop: &str, rng: &mut Rng, n: u64, tier: &str) -> Vec<T> {
 
 fn run(prop: &str, input: &T) -> T {
     match prop {
+        "C36" => c36::run(input),
+        "C37" => c37::run(input),
         "C38" => c38::run(input),
         p => panic!("unknown property {p}"),
     }
